@@ -74,6 +74,12 @@ def sources(tier, seed, ctx):
                 for shift in range(0, smax + 1):
                     if (la + lb + shift + big) % 2 == 0 or tier != 'quick':
                         srcs.append({'fn': 'add_sum_two_numbers_with_shift', 'la': la, 'lb': lb, 'shift': shift, 'big': big, 'host': None})
+    # operand lists shared between calls: the same list object as both operands, then reused
+    for la in (1, 2, 3):
+        for big in (False, True):
+            for shift in (None, 0, 1, 4):
+                srcs.append({'fn': 'sum2-alias', 'la': la, 'big': big, 'shift': shift,
+                             'host': {'seed': rng.randrange(10**6), 'ni': 3, 'ng': 4} if la == 2 else None})
     for n in ([1, 2, 3, 5, 7, 9, 16, 31, 33, 47, 70] if tier == 'quick' else list(range(1, 71))):
         k, sp = bs()
         srcs.append({'fn': 'add_sum_pow2_m1', 'n': n, 'basis': k, 'spelled': sp, 'big': bool(n % 2), 'host': None})
@@ -158,6 +164,23 @@ def record(src):
                 res = ar.add_sum_two_numbers_with_shift(c, shift, list(a), list(b), big_endian=big)
             checks = [{'op': 'add', 'a': A.le(a, big), 'b': A.le(b, big), 'shift': shift, 'out': A.le(res, big)}]
             return A.finish(case, c, pre, rng, res, checks, 'same', [])
+        if fn == 'sum2-alias':
+            la, big, shift = src['la'], src['big'], src['shift']
+            c, ops = A.make_host(src, 2 * la)
+            pre = project(c)
+            a, b = list(ops[:la]), list(ops[la:])
+            a0, b0 = list(a), list(b)
+            if shift is None:
+                r1 = ar.add_sum_two_numbers(c, a, a, big_endian=big)       # the SAME list object twice
+                r2 = ar.add_sum_two_numbers(c, a, b, big_endian=big)       # the list is used again
+                sh = 0
+            else:
+                r1 = ar.add_sum_two_numbers_with_shift(c, shift, a, a, big_endian=big)
+                r2 = ar.add_sum_two_numbers_with_shift(c, shift, a, b, big_endian=big)
+                sh = shift
+            checks = [{'op': 'add', 'a': A.le(a0, big), 'b': A.le(a0, big), 'shift': sh, 'out': A.le(r1, big)},
+                      {'op': 'add', 'a': A.le(a0, big), 'b': A.le(b0, big), 'shift': sh, 'out': A.le(r2, big)}]
+            return A.finish(case, c, pre, rng, list(r1) + list(r2), checks, 'same', [])
         if fn == 'add_sum_pow2_m1':
             n, big = src['n'], src['big']
             c, ops = A.make_host(src, n)
